@@ -103,7 +103,10 @@ type result struct {
 	advIdle              map[string]advIdle
 	unreleasable         bool
 	forgeAfterKeyUpdate  bool
-	causeDone            chan struct{} // closed when doCause has finished (edge phase: it runs in the Dial / Accept goroutine)
+	crafts               []*craftRec                    // cause "craft": the datagrams injected, in order
+	subMinAccepted       bool                           // a reset of 17..20 bytes ended the connection (observation, not judged)
+	tokTable             map[string]map[string][16]byte // announcing side -> connection ID (hex) -> reset token, as read off the wire
+	causeDone            chan struct{}                  // closed when doCause has finished (edge phase: it runs in the Dial / Accept goroutine)
 	nmu                  sync.Mutex
 	finalNow             time.Duration
 	u                    *vf.Unit
@@ -228,6 +231,10 @@ func (r *result) clientSpec() (*quic.QUICSpec, error) {
 	c := &r.c
 	bl, ul, _, _ := streamLimits(c, "s")
 	cid := c.C.CIDLen
+	base := "chrome115"
+	if c.ClientKind == "firefox" {
+		base = "firefoxA"
+	}
 	tps := []specgen.TPDesc{
 		{K: "maxdata", N: 4 * streamWindow}, {K: "bidi_local", N: streamWindow}, {K: "bidi_remote", N: streamWindow}, {K: "uni", N: streamWindow},
 		{K: "streams_bidi", N: uint64(bl)}, {K: "streams_uni", N: uint64(ul)}, {K: "ack_delay", N: 26}, {K: "udp", N: 1452},
@@ -236,7 +243,11 @@ func (r *result) clientSpec() (*quic.QUICSpec, error) {
 	if c.ClientSpec == "idle0" {
 		tps = append(tps[:3:3], append([]specgen.TPDesc{{K: "idle", N: 0}}, tps[3:]...)...)
 	}
-	return specgen.Desc{Base: "chrome115", SrcCID: &cid, TPs: tps}.Build()
+	if c.ClientSpec == "" {
+		// (cause "craft": a browser parrot as it is, with the idle timeout its Config has)
+		tps = append(tps[:3:3], append([]specgen.TPDesc{{K: "idle", N: uint64(c.C.IdleMs)}}, tps[3:]...)...)
+	}
+	return specgen.Desc{Base: base, SrcCID: &cid, TPs: tps}.Build()
 }
 
 func (r *result) config(me string) *quic.Config {
@@ -559,6 +570,12 @@ func (r *result) laterCalls(e *endpoint) {
 	}
 }
 
+// zeroLenCIDs is a quic.ConnectionIDGenerator for zero-length connection IDs.
+type zeroLenCIDs struct{}
+
+func (zeroLenCIDs) GenerateConnectionID() (quic.ConnectionID, error) { return quic.ConnectionID{}, nil }
+func (zeroLenCIDs) ConnectionIDLen() int                             { return 0 }
+
 func alpn(c *Case, client bool) []string {
 	if c.Cause == "alert" && client {
 		return []string{"c17-unknown-protocol"}
@@ -630,8 +647,16 @@ func runCase(c Case, res *result) {
 	ckey := quic.StatelessResetKey(sha256.Sum256([]byte("c17 client reset key")))
 	trS := &quic.Transport{Conn: w.ServerConn, ConnectionIDLength: c.S.CIDLen, StatelessResetKey: &key}
 	trC := &quic.Transport{Conn: w.ClientConn, ConnectionIDLength: c.C.CIDLen}
+	if c.ClientKind == "zerogen" {
+		// interface.go ConnectionIDGenerator: "A length of 0 can only be used when an endpoint doesn't need to multiplex
+		// connections during migration" - one connection per transport here
+		trC = &quic.Transport{Conn: w.ClientConn, ConnectionIDGenerator: zeroLenCIDs{}}
+	}
 	if c.C.ResetKey {
 		trC.StatelessResetKey = &ckey
+	}
+	if c.ClientKind == "dial" {
+		trC = nil // quic.Dial makes its own single-use transport (zero-length source connection ID)
 	}
 	res.C.tr, res.S.tr = trC, trS
 	serverTLS := func() *tls.Config { return sim.ServerTLS(false, w.ServerKeys, alpn(&c, false)...) }
@@ -640,7 +665,9 @@ func runCase(c Case, res *result) {
 	if err != nil {
 		res.harness = "listen: " + err.Error()
 		trS.Close()
-		trC.Close()
+		if trC != nil {
+			trC.Close()
+		}
 		w.Close()
 		cancelAll()
 		return
@@ -680,7 +707,9 @@ func runCase(c Case, res *result) {
 				e.conn.CloseWithError(0, "teardown")
 			}
 		}
-		trC.Close()
+		if trC != nil {
+			trC.Close()
+		}
 		trS.Close()
 		if res.trB != nil {
 			res.trB.Close()
@@ -708,6 +737,15 @@ func runCase(c Case, res *result) {
 			if ps, ok := w.TransportParams(side == "c"); ok {
 				v, present := sim.TPValue(ps, 0x01)
 				res.advIdle[side] = advIdle{ms: v, present: present, seen: true}
+			}
+		}
+		res.tokTable = res.tokenTable()
+		for i, rec := range res.log {
+			var k int
+			if rec.Forged {
+				if n, _ := fmt.Sscanf(rec.Notes, "craft:%d", &k); n == 1 && k < len(res.crafts) {
+					res.crafts[k].rec = i
+				}
 			}
 		}
 		if res.forgeRec == -2 {
@@ -748,7 +786,9 @@ func runCase(c Case, res *result) {
 	dialRec := res.call(&wg, res.C, "Dial", func() (int, error) {
 		var conn *quic.Conn
 		var err error
-		if c.ClientSpec != "" {
+		if c.ClientKind == "dial" {
+			conn, err = quic.Dial(dialCtx, w.ClientConn, sim.ServerAddr, sim.ClientTLS(w.ClientKeys, alpn(&c, true)...), res.config("c"))
+		} else if c.ClientSpec != "" || c.ClientKind == "chrome" || c.ClientKind == "firefox" {
 			spec, serr := res.clientSpec()
 			if serr != nil {
 				err = serr
